@@ -1,1 +1,935 @@
-(* placeholder: proofs are being written *)
+From Coq Require Import List ZArith NArith Bool Arith Lia.
+From CE Require Import Str Comp Formula FormulaSpec.
+Import ListNotations.
+
+
+(* boundary: byte offset k is the end of some prefix of s *)
+Definition bnd (s : str) (k : nat) : Prop := exists p q, s = p ++ q /\ blen p = k.
+
+Lemma width_pos c : 1 <= width c.
+Proof. unfold width; repeat destruct (_ <? _)%N; lia. Qed.
+
+Lemma blen_app p q : blen (p ++ q) = blen p + blen q.
+Proof. induction p; simpl; lia. Qed.
+
+Lemma drop_bytes_app p q : drop_bytes (p ++ q) (blen p) = Some q.
+Proof.
+  induction p as [|c p IH]; simpl.
+  - destruct q; reflexivity.
+  - pose proof (width_pos c). destruct (width c + blen p) eqn:E; [lia|].
+    rewrite <- E. replace (width c <=? width c + blen p) with true by (symmetry; apply Nat.leb_le; lia).
+    replace (width c + blen p - width c) with (blen p) by lia. exact IH.
+Qed.
+
+Lemma take_bytes_app p q : take_bytes (p ++ q) (blen p) = Some p.
+Proof.
+  induction p as [|c p IH]; simpl.
+  - destruct q; reflexivity.
+  - pose proof (width_pos c). destruct (width c + blen p) eqn:E; [lia|].
+    rewrite <- E. replace (width c <=? width c + blen p) with true by (symmetry; apply Nat.leb_le; lia).
+    replace (width c + blen p - width c) with (blen p) by lia. rewrite IH. reflexivity.
+Qed.
+
+(* two boundaries a <= b split s as p ++ m ++ q *)
+Lemma bnd_split s a b : bnd s a -> bnd s b -> a <= b ->
+  exists p m q, s = p ++ m ++ q /\ blen p = a /\ blen m = b - a.
+Proof.
+  intros (p1 & q1 & E1 & L1) (p2 & q2 & E2 & L2) Hab. subst a b.
+  revert p2 q2 s q1 E1 E2 Hab. induction p1 as [|c p1 IH]; intros p2 q2 s q1 E1 E2 Hab.
+  - exists [], p2, q2. simpl in *. subst. repeat split; auto; lia.
+  - destruct p2 as [|c2 p2].
+    + simpl in Hab. pose proof (width_pos c). lia.
+    + simpl in E1, E2. subst s. injection E2 as Ec Et. subst c2.
+      simpl in Hab. destruct (IH p2 q2 (p1 ++ q1) q1 eq_refl Et) as (p & m & q & Es & Lp & Lm); [lia|].
+      exists (c :: p), m, q. simpl. rewrite Es. repeat split; simpl; lia.
+Qed.
+
+Lemma slice_some s a b : bnd s a -> bnd s b -> a <= b -> exists t, slice s a b = Some t /\ List.length t <= List.length s.
+Proof.
+  intros Ha Hb Hab. destruct (bnd_split s a b Ha Hb Hab) as (p & m & q & Es & Lp & Lm).
+  unfold slice. replace (a <=? b) with true by (symmetry; apply Nat.leb_le; lia).
+  subst s a. rewrite drop_bytes_app. rewrite <- Lm. rewrite take_bytes_app.
+  exists m. split; auto. rewrite !app_length. lia.
+Qed.
+
+Lemma blen_0 p : blen p = 0 -> p = [].
+Proof. destruct p as [|c p]; auto. simpl. pose proof (width_pos c). lia. Qed.
+
+Lemma slice_some_lt s a b : bnd s a -> bnd s b -> 1 <= a -> a <= b -> exists t, slice s a b = Some t /\ List.length t < List.length s.
+Proof.
+  intros Ha Hb H1 Hab. destruct (bnd_split s a b Ha Hb Hab) as (p & m & q & Es & Lp & Lm).
+  unfold slice. replace (a <=? b) with true by (symmetry; apply Nat.leb_le; lia).
+  subst s a. rewrite drop_bytes_app. rewrite <- Lm. rewrite take_bytes_app.
+  exists m. split; auto. rewrite !app_length.
+  destruct p as [|c p]; [simpl in H1; lia|]. simpl. lia.
+Qed.
+
+Section Safety.
+Variables (uni_numeric : char -> bool) (has_elem : str -> bool) (has_iso : str -> N -> bool).
+Variable s : str.
+Notation B := (bnd s).
+
+Definition iso_clean (c : cfg) := ie c = is_ c.
+
+Definition Inv (c : cfg) (i : nat) : Prop :=
+  match fstate c with
+  | New => iso_clean c
+  | Element => iso_clean c /\ B (es c) /\ es c <= i
+  | Isotope => B (es c) /\ B (ee c) /\ es c <= ee c /\ B (is_ c) /\ is_ c <= i
+  | IsotopeToCount => B (es c) /\ B (ee c) /\ es c <= ee c /\ B (is_ c) /\ B (ie c) /\ is_ c <= ie c /\ ie c <= i
+  | Count => B (es c) /\ B (ee c) /\ es c <= ee c /\ B (cs c) /\ cs c <= i /\
+             (ie c = is_ c \/ (B (is_ c) /\ B (ie c) /\ is_ c <= ie c))
+  | Group => iso_clean c /\ B (gs c) /\ gs c <= i /\ 1 <= gs c
+  | GroupToGroupCount => iso_clean c /\ B (gs c) /\ B (ge c) /\ gs c <= ge c /\ 1 <= gs c
+  | GroupCount => iso_clean c /\ B (gs c) /\ B (ge c) /\ gs c <= ge c /\ 1 <= gs c /\ B (gcs c) /\ gcs c <= i
+  end.
+
+Variable parse_rec : str -> fres ents.
+Hypothesis rec_safe : forall t, List.length t < List.length s -> parse_rec t <> FPanic.
+
+Lemma sl_ok_lt a b : B a -> B b -> 1 <= a -> a <= b -> exists t, sl s a b = FOk t /\ List.length t < List.length s.
+Proof.
+  intros Ha Hb H1 Hab. destruct (slice_some_lt s a b Ha Hb H1 Hab) as (t & E & L).
+  exists t. unfold sl. rewrite E. auto.
+Qed.
+
+Ltac use_sl_lt :=
+  match goal with
+  | |- context [sl s ?a ?b] =>
+      let t := fresh "t" in let E := fresh "E" in let L := fresh "L" in
+      destruct (sl_ok_lt a b) as (t & E & L); [ (simpl; intuition (auto; try lia)) .. | rewrite E; simpl ]
+  end.
+
+Lemma sl_ok a b : B a -> B b -> a <= b -> exists t, sl s a b = FOk t /\ List.length t <= List.length s.
+Proof.
+  intros Ha Hb Hab. destruct (slice_some s a b Ha Hb Hab) as (t & E & L).
+  exists t. unfold sl. rewrite E. auto.
+Qed.
+
+Ltac use_sl :=
+  match goal with
+  | |- context [sl s ?a ?b] =>
+      let t := fresh "t" in let E := fresh "E" in let L := fresh "L" in
+      destruct (sl_ok a b) as (t & E & L); [ (simpl; intuition (auto; try lia)) .. | rewrite E; simpl ]
+  end.
+
+Definition good (r : fres (ents * cfg)) (i' : nat) : Prop :=
+  match r with FPanic => False | FErr _ => True | FOk (_, c') => Inv c' i' end.
+
+Ltac fin := unfold good, Inv, iso_clean in *; simpl in *; try match goal with H : fstate _ = _ |- _ => rewrite ?H in * end; simpl in *; intuition (auto; try lia).
+Ltac ascii_w P := apply N.eqb_eq in P; subst; change (width LP) with 1 in *; change (width LB) with 1 in *; change (width RB) with 1 in *; change (width RP) with 1 in *.
+
+Lemma step_safe acc c i ch :
+  Inv c i -> B i -> B (i + width ch) ->
+  good (step uni_numeric has_elem has_iso parse_rec s acc c i ch) (i + width ch).
+Proof.
+  intros HI Bi Bi'. pose proof (width_pos ch) as Hw.
+  unfold step. destruct (fstate c) eqn:St; unfold Inv in HI; rewrite St in HI.
+  - (* New *)
+    destruct (is_upper ch) eqn:U; [fin|].
+    destruct (ch =? LP)%N eqn:P; [|exact I]. ascii_w P. fin.
+  - (* Element *)
+    destruct (is_alpha ch) eqn:A.
+    + destruct (is_upper ch) eqn:U; [|fin].
+      unfold get_elem; simpl. use_sl. destruct (has_elem t); simpl; fin.
+    + destruct (is_numeric uni_numeric ch) eqn:Nm; [fin|].
+      destruct (ch =? LB)%N eqn:P1; [ascii_w P1; fin|].
+      destruct (ch =? LP)%N eqn:P2; [|fin].
+      ascii_w P2. unfold get_elem; simpl. use_sl. destruct (has_elem t); simpl; fin.
+  - (* Isotope *)
+    destruct (ch =? RB)%N eqn:P; [ascii_w P; fin|].
+    destruct (negb (is_numeric uni_numeric ch)); fin.
+  - (* IsotopeToCount *)
+    destruct (is_numeric uni_numeric ch) eqn:Nm; [fin|].
+    unfold get_elem; simpl. use_sl. destruct (has_elem t); simpl; [|fin].
+    unfold parse_isotope_slice; simpl. use_sl.
+    destruct (parse_u16 t0); simpl; [|fin].
+    unfold check_iso. destruct (_ || _); simpl; [|fin].
+    unfold start_item; simpl.
+    destruct (ch =? LP)%N eqn:P; [ascii_w P; fin|].
+    destruct (is_upper ch); fin.
+  - (* Count *)
+    destruct (negb (is_numeric uni_numeric ch)) eqn:Nm; [|fin].
+    unfold take_count; simpl. use_sl.
+    destruct (parse_i32 t); simpl; [|fin].
+    destruct (Nat.eqb (ie c) (is_ c)) eqn:EQ; simpl.
+    + unfold get_elem; simpl. use_sl. destruct (has_elem t0); simpl; [|fin].
+      unfold start_item; simpl.
+      destruct (ch =? LP)%N eqn:P; [ascii_w P; fin|]. destruct (is_upper ch); fin.
+    + apply Nat.eqb_neq in EQ. unfold parse_isotope_slice; simpl. use_sl.
+      destruct (parse_u16 t0); simpl; [|fin].
+      unfold get_elem; simpl. use_sl. destruct (has_elem t1); simpl; [|fin].
+      unfold check_iso. destruct (_ || _); simpl; [|fin].
+      unfold start_item; simpl.
+      destruct (ch =? LP)%N eqn:P; [ascii_w P; fin|]. destruct (is_upper ch); fin.
+  - (* Group *)
+    destruct (ch =? RP)%N eqn:P.
+    + ascii_w P. simpl. destruct (_ =? 0)%Z; fin.
+    + destruct (ch =? LP)%N; fin.
+  - (* GroupToGroupCount *)
+    destruct (negb (is_numeric uni_numeric ch)) eqn:Nm; [|fin].
+    unfold take_group; simpl. use_sl_lt.
+    pose proof (rec_safe t L) as RS. destruct (parse_rec t); simpl; [|fin|congruence].
+    unfold start_item; simpl.
+    destruct (ch =? LP)%N eqn:P; [ascii_w P; fin|]. destruct (is_upper ch); fin.
+  - (* GroupCount *)
+    destruct (negb (is_numeric uni_numeric ch)) eqn:Nm; [|fin].
+    unfold take_group; simpl. use_sl_lt.
+    pose proof (rec_safe t L) as RS. destruct (parse_rec t); simpl; [|fin|congruence].
+    unfold take_gcount; simpl. use_sl.
+    destruct (parse_i32 t0); simpl; [|fin].
+    unfold start_item; simpl.
+    destruct (ch =? LP)%N eqn:P; [ascii_w P; fin|]. destruct (is_upper ch); fin.
+Qed.
+
+Lemma bnd_end : B (blen s).
+Proof. exists s, []. rewrite app_nil_r. auto. Qed.
+
+Lemma finish_safe acc c : Inv c (blen s) ->
+  finish has_elem has_iso parse_rec s acc c <> FPanic.
+Proof.
+  intros HI. pose proof bnd_end as Be.
+  unfold finish. destruct (fstate c) eqn:St; unfold Inv in HI; rewrite St in HI; try discriminate.
+  - (* Element *)
+    unfold get_elem; simpl. use_sl. destruct (has_elem t); simpl; discriminate.
+  - (* IsotopeToCount *)
+    unfold get_elem; simpl. use_sl. destruct (has_elem t); simpl; [|discriminate].
+    unfold parse_isotope_slice; simpl. use_sl. destruct (parse_u16 t0); simpl; [|discriminate].
+    unfold check_iso. destruct (_ || _); simpl; discriminate.
+  - (* Count *)
+    unfold take_count; simpl. use_sl. destruct (parse_i32 t); simpl; [|discriminate].
+    destruct (Nat.eqb (ie c) (is_ c)) eqn:EQ; simpl.
+    + unfold get_elem; simpl. use_sl. destruct (has_elem t0); simpl; discriminate.
+    + apply Nat.eqb_neq in EQ. unfold parse_isotope_slice; simpl. use_sl.
+      destruct (parse_u16 t0); simpl; [|discriminate].
+      unfold get_elem; simpl. use_sl. destruct (has_elem t1); simpl; [|discriminate].
+      unfold check_iso. destruct (_ || _); simpl; discriminate.
+  - (* GroupToGroupCount *)
+    unfold take_group; simpl. use_sl_lt.
+    pose proof (rec_safe t L) as RS. destruct (parse_rec t); simpl; [discriminate|discriminate|congruence].
+  - (* GroupCount *)
+    unfold take_group; simpl. use_sl_lt.
+    pose proof (rec_safe t L) as RS. destruct (parse_rec t); simpl; [|discriminate|congruence].
+    unfold take_gcount; simpl. use_sl. destruct (parse_i32 t0); simpl; discriminate.
+Qed.
+
+Lemma run_safe suf : forall pre acc c, s = pre ++ suf -> Inv c (blen pre) ->
+  run uni_numeric has_elem has_iso parse_rec s acc c (indices suf (blen pre)) <> FPanic.
+Proof.
+  induction suf as [|ch suf IH]; intros pre acc c Es HI; simpl.
+  - rewrite app_nil_r in Es. subst pre. apply finish_safe; auto.
+  - assert (Bi : B (blen pre)) by (exists pre, (ch :: suf); auto).
+    assert (Bi' : B (blen pre + width ch)).
+    { exists (pre ++ [ch]), suf. split. rewrite <- app_assoc; auto. rewrite blen_app; simpl; lia. }
+    pose proof (step_safe acc c (blen pre) ch HI Bi Bi') as G.
+    destruct (step uni_numeric has_elem has_iso parse_rec s acc c (blen pre) ch) as [[acc' c']|e|]; simpl in *; try discriminate; [|contradiction].
+    replace (blen pre + width ch) with (blen (pre ++ [ch])) in * by (rewrite blen_app; simpl; lia).
+    apply IH; auto. rewrite <- app_assoc; auto.
+Qed.
+End Safety.
+
+Theorem parse_safe uni_numeric has_elem has_iso : forall fuel s, List.length s < fuel ->
+  parse uni_numeric has_elem has_iso fuel s <> FPanic.
+Proof.
+  induction fuel as [|f IH]; intros s L; [lia|]. simpl.
+  apply (run_safe uni_numeric has_elem has_iso s (parse uni_numeric has_elem has_iso f)) with (pre := []) (suf := s); auto.
+  - intros t Lt. apply IH. lia.
+  - unfold Inv, cfg0, iso_clean; simpl. auto.
+Qed.
+
+Corollary parse_formula_no_panic uni_numeric has_elem has_iso s :
+  parse_formula uni_numeric has_elem has_iso s <> FPanic.
+Proof. unfold parse_formula. apply parse_safe. lia. Qed.
+
+(* ================================================================== *)
+(* Soundness: a returned composition comes from a well-formed AST      *)
+(* ================================================================== *)
+
+(* ---- keys ---- *)
+Lemma str_eqb_eq a b : str_eqb a b = true <-> a = b.
+Proof. unfold str_eqb. destruct (list_eq_dec N.eq_dec a b); split; intros; auto; discriminate. Qed.
+
+Lemma key_eqb_eq a b : key_eqb a b = true <-> a = b.
+Proof.
+  unfold key_eqb. destruct a as [a1 a2], b as [b1 b2]; cbn [fst snd].
+  rewrite andb_true_iff, str_eqb_eq, N.eqb_eq. split.
+  - intros [H1 H2]; subst; reflexivity.
+  - intros H; injection H as H1 H2; auto.
+Qed.
+
+Lemma key_eqb_refl a : key_eqb a a = true.
+Proof. apply key_eqb_eq; reflexivity. Qed.
+
+(* ---- the accumulator operations, seen through e_get ---- *)
+Lemma e_get_set k' k n l : e_get k' (e_set k n l) = if key_eqb k' k then n else e_get k' l.
+Proof.
+  induction l as [|[k1 v] r IH]; cbn [e_set e_get].
+  - destruct (key_eqb k' k); reflexivity.
+  - destruct (key_eqb k k1) eqn:E1; cbn [e_get].
+    + apply key_eqb_eq in E1; subst k1. destruct (key_eqb k' k); reflexivity.
+    + rewrite IH. destruct (key_eqb k' k1) eqn:E2; [|reflexivity].
+      destruct (key_eqb k' k) eqn:E3; [|reflexivity].
+      apply key_eqb_eq in E2, E3. subst. rewrite key_eqb_refl in E1. discriminate.
+Qed.
+
+Lemma e_get_inc k' k n l : e_get k' (e_inc k n l) = (e_get k' l + (if key_eqb k' k then n else 0))%Z.
+Proof.
+  unfold e_inc. rewrite e_get_set. destruct (key_eqb k' k) eqn:E.
+  - apply key_eqb_eq in E; subst; reflexivity.
+  - lia.
+Qed.
+
+Lemma in_keys_set x k n l : In x (map fst (e_set k n l)) -> x = k \/ In x (map fst l).
+Proof.
+  induction l as [|[k1 v] r IH]; cbn [e_set map fst In].
+  - intros [H|[]]; auto.
+  - destruct (key_eqb k k1); cbn [map fst In]; intros [H|H]; auto.
+    destruct (IH H); auto.
+Qed.
+
+Lemma nodup_set k n l : NoDup (map fst l) -> NoDup (map fst (e_set k n l)).
+Proof.
+  induction l as [|[k1 v] r IH]; cbn [e_set map fst]; intros ND.
+  - constructor; [intros []|constructor].
+  - destruct (key_eqb k k1) eqn:E; cbn [map fst]; [exact ND|].
+    inversion ND as [|? ? Hn ND']; subst. constructor; [|auto].
+    intros Hin. apply in_keys_set in Hin as [->|Hin]; [|auto].
+    rewrite key_eqb_refl in E; discriminate.
+Qed.
+
+Lemma nodup_inc k n l : NoDup (map fst l) -> NoDup (map fst (e_inc k n l)).
+Proof. apply nodup_set. Qed.
+
+Lemma nodup_add b : forall a, NoDup (map fst a) -> NoDup (map fst (e_add a b)).
+Proof.
+  unfold e_add. induction b as [|x b IH]; intros a ND; cbn [fold_left]; auto.
+  apply IH. apply nodup_inc; auto.
+Qed.
+
+Lemma e_get_notin k l : ~ In k (map fst l) -> e_get k l = 0%Z.
+Proof.
+  induction l as [|[k1 v] r IH]; cbn [e_get map fst In]; intros H; auto.
+  destruct (key_eqb k k1) eqn:E.
+  - apply key_eqb_eq in E; subst. exfalso; auto.
+  - apply IH; auto.
+Qed.
+
+Lemma e_get_add k b : forall a, NoDup (map fst b) -> e_get k (e_add a b) = (e_get k a + e_get k b)%Z.
+Proof.
+  unfold e_add. induction b as [|[k1 v] b IH]; intros a ND; cbn [fold_left e_get fst snd map] in *.
+  - lia.
+  - inversion ND as [|? ? Hn ND']; subst. rewrite IH by auto. rewrite e_get_inc.
+    destruct (key_eqb k k1) eqn:E; [|lia].
+    apply key_eqb_eq in E; subst. rewrite (e_get_notin k1 b) by auto. lia.
+Qed.
+
+Lemma e_get_mul k n g : e_get k (e_mul g n) = (e_get k g * n)%Z.
+Proof.
+  unfold e_mul. induction g as [|[k1 v] g IH]; cbn [map e_get fst snd]; auto.
+  destruct (key_eqb k k1); auto.
+Qed.
+
+Lemma keys_mul n g : map fst (e_mul g n) = map fst g.
+Proof. unfold e_mul. rewrite map_map. reflexivity. Qed.
+
+(* ---- numbers ---- *)
+Lemma digits_val_digits d : forall a v, digits_val d a = Some v -> forallb is_digit d = true.
+Proof.
+  induction d as [|c d IH]; intros a v H; cbn [digits_val forallb] in *; auto.
+  destruct (is_digit c); [|discriminate]. cbn [andb]. eauto.
+Qed.
+
+Lemma parse_uint_some bound d n : parse_uint bound d = Some n ->
+  digits_ok d = true /\ digits_val d 0 = Some n.
+Proof.
+  unfold parse_uint, digits_ok. destruct d as [|c d]; [discriminate|].
+  destruct (digits_val (c :: d) 0) as [v|] eqn:E; [|discriminate].
+  destruct (v <=? bound)%N; [|discriminate]. intros H; injection H as ->.
+  split; auto. rewrite (digits_val_digits _ _ _ E). reflexivity.
+Qed.
+
+Lemma cnt_ok_some d n : parse_i32 d = Some n -> cnt_ok (Some d) = true /\ cnt_val (Some d) = Z.of_N n.
+Proof.
+  intros H. destruct (parse_uint_some _ _ _ H) as [H1 H2].
+  unfold cnt_ok, cnt_val. rewrite H1, H, H2. auto.
+Qed.
+
+(* ---- the specification side ---- *)
+Definition iso_text (i : option str) : str := match i with Some d => [LB] ++ d ++ [RB] | None => [] end.
+
+Lemma render_item_El sy i c : render_item (El sy i c) = sy ++ iso_text i ++ opt_text c.
+Proof. reflexivity. Qed.
+
+Lemma render_item_Gr b c : render_item (Gr b c) = [LP] ++ render b ++ [RP] ++ opt_text c.
+Proof.
+  cbn [render_item]. do 2 f_equal. unfold render.
+  induction b as [|x b IH]; cbn [map concat]; [reflexivity|]. rewrite IH. reflexivity.
+Qed.
+
+Lemma render_snoc f it : render (f ++ [it]) = render f ++ render_item it.
+Proof. unfold render. rewrite map_app, concat_app. cbn [map concat]. rewrite app_nil_r. reflexivity. Qed.
+
+Lemma denote_item_Gr b c k : denote_item (Gr b c) k = (cnt_val c * denote b k)%Z.
+Proof.
+  cbn [denote_item]. apply (f_equal (Z.mul (cnt_val c))). unfold denote.
+  induction b as [|x b IH]; [reflexivity|]. cbn [fold_right]. rewrite <- IH. reflexivity.
+Qed.
+
+Lemma denote_snoc f it k : denote (f ++ [it]) k = (denote f k + denote_item it k)%Z.
+Proof. unfold denote. induction f as [|x f IH]; cbn [app fold_right]; [lia|]. rewrite IH. lia. Qed.
+
+Lemma forallb_and {A} (p q : A -> bool) l :
+  forallb p l = true -> forallb q l = true -> forallb (fun x => p x && q x) l = true.
+Proof.
+  induction l as [|x l IH]; cbn [forallb]; auto.
+  rewrite !andb_true_iff. intros [H1 H2] [H3 H4]. rewrite H1, H3. auto.
+Qed.
+
+Lemma width_LP : width LP = 1. Proof. reflexivity. Qed.
+Lemma width_RP : width RP = 1. Proof. reflexivity. Qed.
+Lemma width_LB : width LB = 1. Proof. reflexivity. Qed.
+Lemma width_RB : width RB = 1. Proof. reflexivity. Qed.
+
+Lemma slice_mid P m Q : slice (P ++ m ++ Q) (blen P) (blen P + blen m) = Some m.
+Proof.
+  unfold slice. replace (blen P <=? blen P + blen m) with true by (symmetry; apply Nat.leb_le; lia).
+  rewrite drop_bytes_app. replace (blen P + blen m - blen P) with (blen m) by lia.
+  apply take_bytes_app.
+Qed.
+
+Lemma sl_mid s P m Q a b : s = P ++ m ++ Q -> a = blen P -> b = a + blen m -> sl s a b = FOk m.
+Proof. intros -> -> ->. unfold sl. rewrite slice_mid. reflexivity. Qed.
+
+(* the accumulator holds what the completed items denote, under distinct keys *)
+Definition acc_ok (f : list item) (acc : ents) : Prop :=
+  NoDup (map fst acc) /\ forall k, e_get k acc = denote f k.
+
+Lemma acc_ok_nil : acc_ok [] [].
+Proof. split; [constructor|reflexivity]. Qed.
+
+Lemma acc_ok_el f acc sy i c :
+  acc_ok f acc -> acc_ok (f ++ [El sy i c]) (e_inc (sy, iso_val i) (cnt_val c) acc).
+Proof.
+  intros [ND G]. split; [apply nodup_inc; auto|].
+  intros k. rewrite e_get_inc, denote_snoc, G. reflexivity.
+Qed.
+
+Lemma acc_ok_gr f acc fb g c g' :
+  acc_ok f acc -> acc_ok fb g ->
+  NoDup (map fst g') -> (forall k, e_get k g' = (e_get k g * cnt_val c)%Z) ->
+  acc_ok (f ++ [Gr fb c]) (e_add acc g').
+Proof.
+  intros [ND G] [NDb Gb] ND' G'. split; [apply nodup_add; auto|].
+  intros k. rewrite e_get_add by auto. rewrite denote_snoc, denote_item_Gr, G, G', Gb. lia.
+Qed.
+
+Lemma acc_ok_gr1 f acc fb g : acc_ok f acc -> acc_ok fb g -> acc_ok (f ++ [Gr fb None]) (e_add acc g).
+Proof.
+  intros H Hb. apply (acc_ok_gr f acc fb g None g H Hb); [apply Hb|].
+  intros k. cbn [cnt_val]. lia.
+Qed.
+
+Lemma acc_ok_grn f acc fb g d n : parse_i32 d = Some n ->
+  acc_ok f acc -> acc_ok fb g -> acc_ok (f ++ [Gr fb (Some d)]) (e_add acc (e_mul g (Z.of_N n))).
+Proof.
+  intros Hp H Hb. apply (acc_ok_gr f acc fb g (Some d) _ H Hb).
+  - rewrite keys_mul. apply Hb.
+  - intros k. rewrite e_get_mul. destruct (cnt_ok_some _ _ Hp) as [_ ->]. reflexivity.
+Qed.
+
+Section Sound.
+Variables (uni_numeric : char -> bool) (has_elem : str -> bool) (has_iso : str -> N -> bool).
+Hypothesis no_rp : forall sy, has_elem sy = true -> forallb (fun x => negb (x =? RP)%N) sy = true.
+
+Notation wfi := (wf_item uni_numeric has_elem has_iso true).
+Notation stop := (sym_stop uni_numeric).
+
+(* a symbol as the machine scans it (a closing parenthesis is only excluded by the table) *)
+Definition sym_shape0 (sy : str) : bool :=
+  match sy with c :: r => is_upper c && forallb (fun x => negb (stop x)) r | [] => false end.
+
+Lemma sym_shape0_one ch : is_upper ch = true -> sym_shape0 [ch] = true.
+Proof. intros H. cbn [sym_shape0 forallb]. rewrite H. reflexivity. Qed.
+
+Lemma sym_shape0_snoc sy ch : sym_shape0 sy = true -> stop ch = false -> sym_shape0 (sy ++ [ch]) = true.
+Proof.
+  destruct sy as [|c r]; [discriminate|]. cbn [sym_shape0 app].
+  rewrite !andb_true_iff. intros [H1 H2] H3. split; auto.
+  rewrite forallb_app, H2. cbn [forallb]. rewrite H3. reflexivity.
+Qed.
+
+Lemma sym_shape_of sy : sym_shape0 sy = true -> has_elem sy = true -> sym_shape uni_numeric sy = true.
+Proof.
+  intros H0 HE. pose proof (no_rp sy HE) as HR.
+  destruct sy as [|c r]; [discriminate|]. cbn [sym_shape0 sym_shape forallb] in *.
+  apply andb_true_iff in H0 as [H1 H2]. apply andb_true_iff in HR as [_ H3].
+  rewrite H1. cbn [andb]. apply forallb_and; auto.
+Qed.
+
+Lemma lower_not_stop ch : is_alpha ch = true -> is_upper ch = false -> stop ch = false.
+Proof.
+  unfold is_alpha. intros HA HU. rewrite HU in HA. cbn [orb] in HA.
+  unfold is_lower in HA. apply andb_true_iff in HA as [H1 H2]. apply N.leb_le in H1, H2.
+  unfold sym_stop. rewrite HU. cbn [orb]. unfold is_num, is_digit, LB, LP.
+  replace (ch <? 128)%N with true by (symmetry; apply N.ltb_lt; lia).
+  replace (ch <=? 57)%N with false by (symmetry; apply N.leb_gt; lia).
+  replace (ch =? 91)%N with false by (symmetry; apply N.eqb_neq; lia).
+  replace (ch =? 40)%N with false by (symmetry; apply N.eqb_neq; lia).
+  rewrite andb_false_r. reflexivity.
+Qed.
+
+Lemma other_not_stop ch : is_alpha ch = false -> is_numeric uni_numeric ch = false ->
+  (ch =? LB)%N = false -> (ch =? LP)%N = false -> stop ch = false.
+Proof.
+  unfold is_alpha. intros HA HN H1 H2. apply orb_false_iff in HA as [HU _].
+  unfold sym_stop. rewrite HU, H1, H2. change (is_num uni_numeric ch) with (is_numeric uni_numeric ch).
+  rewrite HN. reflexivity.
+Qed.
+
+Lemma wf_el sy i c : sym_shape0 sy = true -> has_elem sy = true -> cnt_ok c = true ->
+  iso_ok_lenient has_iso sy i c = true -> wfi (El sy i c) = true.
+Proof.
+  intros H1 H2 H3 H4. cbn [wf_item]. rewrite (sym_shape_of sy H1 H2), H2, H3, H4. reflexivity.
+Qed.
+
+Lemma wf_item_Gr b c : wfi (Gr b c) = cnt_ok c && negb (Nat.eqb (List.length b) 0) && forallb wfi b.
+Proof.
+  cbn [wf_item]. apply f_equal. induction b as [|x b IH]; [reflexivity|]. cbn [forallb]. rewrite <- IH. reflexivity.
+Qed.
+
+Lemma wf_gr b c : wf uni_numeric has_elem has_iso true b = true -> cnt_ok c = true -> wfi (Gr b c) = true.
+Proof.
+  unfold wf. intros H Hc. rewrite wf_item_Gr, Hc. exact H.
+Qed.
+
+(* an isotope bracket that passed the parser's checks is (leniently) well-formed, and denotes its number *)
+Lemma iso_ok_some sy d n c : parse_u16 d = Some n -> ((n =? 0)%N || has_iso sy n) = true ->
+  iso_ok_lenient has_iso sy (Some d) c = true /\ iso_val (Some d) = n.
+Proof.
+  intros Hp Hc. destruct (parse_uint_some _ _ _ Hp) as [H1 H2].
+  unfold iso_ok_lenient, iso_val. rewrite H2. split; [|reflexivity].
+  destruct d as [|x d]; [discriminate|]. rewrite H1, Hp, Hc. reflexivity.
+Qed.
+
+(* ---- the ghost state: completed items and the text of the item under construction ---- *)
+Inductive pend :=
+| PNew
+| PElem (sy : str)
+| PIso (sy d : str)
+| PIsoC (sy d : str)
+| PCount (sy : str) (io : option str) (d : str)
+| PGroup (body : str)
+| PGroupC (body : str)
+| PGroupN (body d : str).
+
+Definition ptext (p : pend) : str :=
+  match p with
+  | PNew => []
+  | PElem sy => sy
+  | PIso sy d => sy ++ [LB] ++ d
+  | PIsoC sy d => sy ++ [LB] ++ d ++ [RB]
+  | PCount sy io d => sy ++ iso_text io ++ d
+  | PGroup body => [LP] ++ body
+  | PGroupC body => [LP] ++ body ++ [RP]
+  | PGroupN body d => [LP] ++ body ++ [RP] ++ d
+  end.
+
+(* b is the byte offset where the item under construction starts *)
+Definition PInv (b : nat) (p : pend) (c : cfg) : Prop :=
+  match p with
+  | PNew => fstate c = New /\ ie c = is_ c
+  | PElem sy => fstate c = Element /\ ie c = is_ c /\ es c = b /\ sym_shape0 sy = true
+  | PIso sy d => fstate c = Isotope /\ es c = b /\ ee c = b + blen sy /\ is_ c = b + blen sy + 1 /\ sym_shape0 sy = true
+  | PIsoC sy d => fstate c = IsotopeToCount /\ es c = b /\ ee c = b + blen sy /\ is_ c = b + blen sy + 1 /\
+                  ie c = b + blen sy + 1 + blen d /\ sym_shape0 sy = true
+  | PCount sy io d => fstate c = Count /\ es c = b /\ ee c = b + blen sy /\ cs c = b + blen sy + blen (iso_text io) /\
+                      sym_shape0 sy = true /\
+                      match io with
+                      | None => ie c = is_ c
+                      | Some dd => is_ c = b + blen sy + 1 /\ ie c = b + blen sy + 1 + blen dd
+                      end
+  | PGroup body => fstate c = Group /\ ie c = is_ c /\ gs c = b + 1
+  | PGroupC body => fstate c = GroupToGroupCount /\ ie c = is_ c /\ gs c = b + 1 /\ ge c = b + 1 + blen body
+  | PGroupN body d => fstate c = GroupCount /\ ie c = is_ c /\ gs c = b + 1 /\ ge c = b + 1 + blen body /\
+                      gcs c = b + 1 + blen body + 1
+  end.
+
+Definition SInv (pre : str) (acc : ents) (c : cfg) : Prop :=
+  exists done p, pre = render done ++ ptext p /\ forallb wfi done = true /\ acc_ok done acc /\
+                 PInv (blen (render done)) p c.
+
+Definition Final (t : str) (r : ents) : Prop :=
+  exists f, wf uni_numeric has_elem has_iso true f = true /\ render f = t /\ acc_ok f r.
+
+Lemma Final_intro t r done it : forallb wfi done = true -> wfi it = true ->
+  t = render done ++ render_item it -> acc_ok (done ++ [it]) r -> Final t r.
+Proof.
+  intros H1 H2 H3 H4. exists (done ++ [it]). split; [|split; auto].
+  - unfold wf. rewrite app_length, forallb_app, H1. cbn [List.length forallb]. rewrite H2.
+    replace (List.length done + 1) with (S (List.length done)) by lia. reflexivity.
+  - rewrite render_snoc. auto.
+Qed.
+
+(* a completed item followed by the first character of the next one *)
+Lemma SInv_next pre ch acc' c' done it p' :
+  forallb wfi done = true -> wfi it = true -> pre = render done ++ render_item it ->
+  acc_ok (done ++ [it]) acc' -> ptext p' = [ch] -> PInv (blen pre) p' c' ->
+  SInv (pre ++ [ch]) acc' c'.
+Proof.
+  intros H1 H2 H3 H4 H5 H6. exists (done ++ [it]), p'. rewrite render_snoc, <- H3, H5.
+  split; [reflexivity|]. split; [|split; auto].
+  rewrite forallb_app, H1. cbn [forallb]. rewrite H2. reflexivity.
+Qed.
+
+Lemma start_item_sound pa e c i ch c' :
+  start_item pa e c i ch = FOk c' -> ie c = is_ c -> exists p', ptext p' = [ch] /\ PInv i p' c'.
+Proof.
+  unfold start_item. intros H Hc. destruct (ch =? LP)%N eqn:P.
+  - apply N.eqb_eq in P; subst ch. injection H as <-. exists (PGroup []). split; [reflexivity|].
+    cbn. auto.
+  - destruct (is_upper ch) eqn:U; [|discriminate]. injection H as <-. exists (PElem [ch]).
+    split; [reflexivity|]. cbn. rewrite U. auto.
+Qed.
+
+Section Run.
+Variable s : str.
+Variable parse_rec : str -> fres ents.
+Hypothesis rec_sound : forall t g, parse_rec t = FOk g -> Final t g.
+
+Ltac cfgs H := cbn [bind of_opt es ee is_ ie cs ce pstack gs ge gcs gce fstate set_es set_ee set_is set_ie
+                    set_cs set_ce set_ps set_gs set_ge set_gcs set_gce set_st] in H.
+Ltac cfgg := cbn [PInv ptext es ee is_ ie cs ce pstack gs ge gcs gce fstate set_es set_ee set_is set_ie
+                    set_cs set_ce set_ps set_gs set_ge set_gcs set_gce set_st].
+Ltac seq Hs := unfold id in Hs; rewrite Hs; cbn [iso_text opt_text]; repeat rewrite <- app_assoc; cbn [app]; reflexivity.
+Ltac len := rewrite ?render_snoc, ?render_item_El, ?render_item_Gr;
+            repeat first [rewrite blen_app | progress cbn [blen app opt_text iso_text]];
+            rewrite ?width_LP, ?width_RP, ?width_LB, ?width_RB; lia.
+Ltac txt := rewrite ?render_item_El, ?render_item_Gr; cbn [ptext iso_text opt_text];
+            repeat rewrite <- app_assoc; cbn [app]; rewrite ?app_nil_r; reflexivity.
+
+Lemma SInv_stay pre ch acc c' done p' :
+  forallb wfi done = true -> acc_ok done acc -> pre ++ [ch] = render done ++ ptext p' ->
+  PInv (blen (render done)) p' c' -> SInv (pre ++ [ch]) acc c'.
+Proof. intros H1 H2 H3 H4. exists done, p'. auto. Qed.
+
+Lemma step_sound pre ch suf acc c acc' c' :
+  s = pre ++ ch :: suf -> SInv pre acc c ->
+  step uni_numeric has_elem has_iso parse_rec s acc c (blen pre) ch = FOk (acc', c') ->
+  SInv (pre ++ [ch]) acc' c'.
+Proof.
+  intros Hs (done & p & Hpre & Hwf & Hacc & HP) Hstep.
+  destruct c as [ces cee cis cie ccs cce cps cgs cge cgcs cgce cst].
+  change (id (s = pre ++ ch :: suf)) in Hs.
+  unfold step in Hstep.
+  destruct p as [|sy|sy d|sy d|sy io d|body|body|body d];
+    cbn [PInv ptext es ee is_ ie cs ce pstack gs ge gcs gce fstate] in HP, Hpre.
+  - (* New *)
+    destruct HP as (Hst & Hiso). subst. cfgs Hstep.
+    destruct (is_upper ch) eqn:U.
+    + injection Hstep as <- <-. apply SInv_stay with (done := done) (p' := PElem [ch]); auto; [txt|].
+      cfgg. rewrite sym_shape0_one by auto. repeat split; len.
+    + destruct (ch =? LP)%N eqn:P; [|discriminate]. apply N.eqb_eq in P; subst ch.
+      injection Hstep as <- <-. apply SInv_stay with (done := done) (p' := PGroup []); auto; [txt|].
+      cfgg. repeat split; len.
+  - (* Element *)
+    destruct HP as (Hst & Hiso & Hes & Hsh). subst. cfgs Hstep.
+    destruct (is_alpha ch) eqn:A.
+    + destruct (is_upper ch) eqn:U.
+      * unfold get_elem in Hstep. cfgs Hstep.
+        rewrite (sl_mid s (render done) sy (ch :: suf)) in Hstep; [|seq Hs|reflexivity|len]. cfgs Hstep.
+        destruct (has_elem sy) eqn:HE; cfgs Hstep; [|discriminate]. injection Hstep as <- <-.
+        apply SInv_next with (done := done) (it := El sy None None) (p' := PElem [ch]); [exact Hwf| | | |reflexivity| ].
+        -- apply wf_el; auto.
+        -- txt.
+        -- exact (acc_ok_el done acc sy None None Hacc).
+        -- cfgg. rewrite sym_shape0_one by auto. auto.
+      * injection Hstep as <- <-. apply SInv_stay with (done := done) (p' := PElem (sy ++ [ch])); auto; [txt|].
+        cfgg. rewrite sym_shape0_snoc; auto using lower_not_stop.
+    + destruct (is_numeric uni_numeric ch) eqn:Nm.
+      { injection Hstep as <- <-. apply SInv_stay with (done := done) (p' := PCount sy None [ch]); auto; [txt|].
+        cfgg. repeat split; auto; len. }
+      destruct (ch =? LB)%N eqn:P1.
+      { apply N.eqb_eq in P1; subst ch. injection Hstep as <- <-.
+        apply SInv_stay with (done := done) (p' := PIso sy []); auto; [txt|].
+        cfgg. repeat split; auto; len. }
+      destruct (ch =? LP)%N eqn:P2.
+      { apply N.eqb_eq in P2; subst ch. unfold get_elem in Hstep. cfgs Hstep.
+        rewrite (sl_mid s (render done) sy (LP :: suf)) in Hstep; [|seq Hs|reflexivity|len]. cfgs Hstep.
+        destruct (has_elem sy) eqn:HE; cfgs Hstep; [|discriminate]. injection Hstep as <- <-.
+        apply SInv_next with (done := done) (it := El sy None None) (p' := PGroup []); [exact Hwf| | | |reflexivity| ].
+        -- apply wf_el; auto.
+        -- txt.
+        -- exact (acc_ok_el done acc sy None None Hacc).
+        -- cfgg. auto. }
+      injection Hstep as <- <-. apply SInv_stay with (done := done) (p' := PElem (sy ++ [ch])); auto; [txt|].
+      cfgg. rewrite sym_shape0_snoc; auto using other_not_stop.
+  - (* Isotope *)
+    destruct HP as (Hst & Hes & Hee & His & Hsh). subst. cfgs Hstep.
+    destruct (ch =? RB)%N eqn:P.
+    + apply N.eqb_eq in P; subst ch. injection Hstep as <- <-.
+      apply SInv_stay with (done := done) (p' := PIsoC sy d); auto; [txt|].
+      cfgg. repeat split; auto; len.
+    + destruct (negb (is_numeric uni_numeric ch)); [discriminate|]. injection Hstep as <- <-.
+      apply SInv_stay with (done := done) (p' := PIso sy (d ++ [ch])); auto; [txt|].
+      cfgg. repeat split; auto; len.
+  - (* IsotopeToCount *)
+    destruct HP as (Hst & Hes & Hee & His & Hie & Hsh). subst. cfgs Hstep.
+    destruct (is_numeric uni_numeric ch) eqn:Nm.
+    + injection Hstep as <- <-. apply SInv_stay with (done := done) (p' := PCount sy (Some d) [ch]); auto; [txt|].
+      cfgg. repeat split; auto; len.
+    + unfold get_elem in Hstep. cfgs Hstep.
+      rewrite (sl_mid s (render done) sy ([LB] ++ d ++ [RB] ++ ch :: suf)) in Hstep; [|seq Hs|reflexivity|len].
+      cfgs Hstep. destruct (has_elem sy) eqn:HE; cfgs Hstep; [|discriminate].
+      unfold parse_isotope_slice in Hstep. cfgs Hstep.
+      rewrite (sl_mid s (render done ++ sy ++ [LB]) d ([RB] ++ ch :: suf)) in Hstep; [|seq Hs|len|len].
+      cfgs Hstep. destruct (parse_u16 d) as [n|] eqn:PU; cfgs Hstep; [|discriminate].
+      unfold check_iso in Hstep. destruct ((n =? 0)%N || has_iso sy n) eqn:CI; cfgs Hstep; [|discriminate].
+      destruct (iso_ok_some sy d n None PU CI) as [Hi1 Hi2].
+      match type of Hstep with context [start_item ?a ?b ?c ?d ?e] => destruct (start_item a b c d e) as [c1| |] eqn:SI end;
+        cfgs Hstep; [|discriminate..]. injection Hstep as <- <-.
+      destruct (start_item_sound _ _ _ _ _ _ SI eq_refl) as (p' & Hp' & HP').
+      apply SInv_next with (done := done) (it := El sy (Some d) None) (p' := p'); [exact Hwf| | | |exact Hp'|exact HP'].
+      * apply wf_el; auto.
+      * txt.
+      * rewrite <- Hi2. exact (acc_ok_el done acc sy (Some d) None Hacc).
+  - (* Count *)
+    destruct HP as (Hst & Hes & Hee & Hcs & Hsh & Hio). subst. cfgs Hstep.
+    destruct (negb (is_numeric uni_numeric ch)) eqn:Nm.
+    + unfold take_count in Hstep. cfgs Hstep.
+      rewrite (sl_mid s (render done ++ sy ++ iso_text io) d (ch :: suf)) in Hstep; [|seq Hs|len|len].
+      cfgs Hstep. destruct (parse_i32 d) as [cnt|] eqn:PC; cfgs Hstep; [|discriminate].
+      destruct (cnt_ok_some _ _ PC) as [Hc1 Hc2].
+      destruct io as [dd|].
+      * destruct Hio as [-> ->]. destruct dd as [|x dd].
+        -- cbn [blen] in Hstep. rewrite Nat.add_0_r, Nat.eqb_refl in Hstep.
+           unfold get_elem in Hstep. cfgs Hstep.
+           rewrite (sl_mid s (render done) sy (iso_text (Some []) ++ d ++ ch :: suf)) in Hstep; [|seq Hs|reflexivity|len].
+           cfgs Hstep. destruct (has_elem sy) eqn:HE; cfgs Hstep; [|discriminate].
+           unfold check_iso in Hstep. cbn [N.eqb orb] in Hstep. cfgs Hstep.
+           match type of Hstep with context [start_item ?a ?b ?c ?d ?e] => destruct (start_item a b c d e) as [c1| |] eqn:SI end;
+             cfgs Hstep; [|discriminate..]. injection Hstep as <- <-.
+           destruct (start_item_sound _ _ _ _ _ _ SI eq_refl) as (p' & Hp' & HP').
+           apply SInv_next with (done := done) (it := El sy (Some []) (Some d)) (p' := p'); [exact Hwf| | | |exact Hp'|exact HP'].
+           ++ apply wf_el; auto.
+           ++ txt.
+           ++ rewrite <- Hc2. exact (acc_ok_el done acc sy (Some []) (Some d) Hacc).
+        -- replace (Nat.eqb _ _) with false in Hstep
+             by (symmetry; apply Nat.eqb_neq; cbn [blen]; pose proof (width_pos x); lia).
+           unfold parse_isotope_slice in Hstep. cfgs Hstep.
+           rewrite (sl_mid s (render done ++ sy ++ [LB]) (x :: dd) ([RB] ++ d ++ ch :: suf)) in Hstep; [|seq Hs|len|len].
+           cfgs Hstep. destruct (parse_u16 (x :: dd)) as [n|] eqn:PU; cfgs Hstep; [|discriminate].
+           unfold get_elem in Hstep. cfgs Hstep.
+           rewrite (sl_mid s (render done) sy (iso_text (Some (x :: dd)) ++ d ++ ch :: suf)) in Hstep; [|seq Hs|reflexivity|len].
+           cfgs Hstep. destruct (has_elem sy) eqn:HE; cfgs Hstep; [|discriminate].
+           unfold check_iso in Hstep. destruct ((n =? 0)%N || has_iso sy n) eqn:CI; cfgs Hstep; [|discriminate].
+           destruct (iso_ok_some sy (x :: dd) n (Some d) PU CI) as [Hi1 Hi2].
+           match type of Hstep with context [start_item ?a ?b ?c ?d ?e] => destruct (start_item a b c d e) as [c1| |] eqn:SI end;
+             cfgs Hstep; [|discriminate..]. injection Hstep as <- <-.
+           destruct (start_item_sound _ _ _ _ _ _ SI eq_refl) as (p' & Hp' & HP').
+           apply SInv_next with (done := done) (it := El sy (Some (x :: dd)) (Some d)) (p' := p'); [exact Hwf| | | |exact Hp'|exact HP'].
+           ++ apply wf_el; auto.
+           ++ txt.
+           ++ rewrite <- Hc2, <- Hi2. exact (acc_ok_el done acc sy (Some (x :: dd)) (Some d) Hacc).
+      * subst cie. rewrite Nat.eqb_refl in Hstep. cfgs Hstep.
+        unfold get_elem in Hstep. cfgs Hstep.
+        rewrite (sl_mid s (render done) sy (d ++ ch :: suf)) in Hstep; [|seq Hs|reflexivity|len].
+        cfgs Hstep. destruct (has_elem sy) eqn:HE; cfgs Hstep; [|discriminate].
+        unfold check_iso in Hstep. cbn [N.eqb orb] in Hstep. cfgs Hstep.
+        match type of Hstep with context [start_item ?a ?b ?c ?d ?e] => destruct (start_item a b c d e) as [c1| |] eqn:SI end;
+          cfgs Hstep; [|discriminate..]. injection Hstep as <- <-.
+        destruct (start_item_sound _ _ _ _ _ _ SI eq_refl) as (p' & Hp' & HP').
+        apply SInv_next with (done := done) (it := El sy None (Some d)) (p' := p'); [exact Hwf| | | |exact Hp'|exact HP'].
+        -- apply wf_el; auto.
+        -- txt.
+        -- rewrite <- Hc2. exact (acc_ok_el done acc sy None (Some d) Hacc).
+    + injection Hstep as <- <-. apply SInv_stay with (done := done) (p' := PCount sy io (d ++ [ch])); auto; [txt|].
+      cfgg. repeat split; auto.
+  - (* Group *)
+    destruct HP as (Hst & Hiso & Hgs). subst. cfgs Hstep.
+    destruct (ch =? RP)%N eqn:P.
+    + apply N.eqb_eq in P; subst ch. destruct (cps - 1 =? 0)%Z; injection Hstep as <- <-.
+      * apply SInv_stay with (done := done) (p' := PGroupC body); auto; [txt|].
+        cfgg. repeat split; auto; len.
+      * apply SInv_stay with (done := done) (p' := PGroup (body ++ [RP])); auto; [txt|].
+        cfgg. repeat split; auto.
+    + destruct (ch =? LP)%N; injection Hstep as <- <-;
+        (apply SInv_stay with (done := done) (p' := PGroup (body ++ [ch])); auto; [txt|]; cfgg; repeat split; auto).
+  - (* GroupToGroupCount *)
+    destruct HP as (Hst & Hiso & Hgs & Hge). subst. cfgs Hstep.
+    destruct (negb (is_numeric uni_numeric ch)) eqn:Nm.
+    + unfold take_group in Hstep. cfgs Hstep.
+      rewrite (sl_mid s (render done ++ [LP]) body ([RP] ++ ch :: suf)) in Hstep; [|seq Hs|len|len].
+      cfgs Hstep. destruct (parse_rec body) as [g| |] eqn:PR; cfgs Hstep; [|discriminate..].
+      destruct (rec_sound body g PR) as (fb & Hfb1 & Hfb2 & Hfb3).
+      match type of Hstep with context [start_item ?a ?b ?c ?d ?e] => destruct (start_item a b c d e) as [c1| |] eqn:SI end;
+        cfgs Hstep; [|discriminate..]. injection Hstep as <- <-.
+      destruct (start_item_sound _ _ _ _ _ _ SI eq_refl) as (p' & Hp' & HP').
+      apply SInv_next with (done := done) (it := Gr fb None) (p' := p'); [exact Hwf| | | |exact Hp'|exact HP'].
+      * apply wf_gr; auto.
+      * rewrite render_item_Gr, Hfb2. txt.
+      * apply acc_ok_gr1; auto.
+    + injection Hstep as <- <-. apply SInv_stay with (done := done) (p' := PGroupN body [ch]); auto; [txt|].
+      cfgg. repeat split; auto; len.
+  - (* GroupCount *)
+    destruct HP as (Hst & Hiso & Hgs & Hge & Hgcs). subst. cfgs Hstep.
+    destruct (negb (is_numeric uni_numeric ch)) eqn:Nm.
+    + unfold take_group in Hstep. cfgs Hstep.
+      rewrite (sl_mid s (render done ++ [LP]) body ([RP] ++ d ++ ch :: suf)) in Hstep; [|seq Hs|len|len].
+      cfgs Hstep. destruct (parse_rec body) as [g| |] eqn:PR; cfgs Hstep; [|discriminate..].
+      destruct (rec_sound body g PR) as (fb & Hfb1 & Hfb2 & Hfb3).
+      unfold take_gcount in Hstep. cfgs Hstep.
+      rewrite (sl_mid s (render done ++ [LP] ++ body ++ [RP]) d (ch :: suf)) in Hstep; [|seq Hs|len|len].
+      cfgs Hstep. destruct (parse_i32 d) as [cnt|] eqn:PC; cfgs Hstep; [|discriminate].
+      destruct (cnt_ok_some _ _ PC) as [Hc1 Hc2].
+      match type of Hstep with context [start_item ?a ?b ?c ?d ?e] => destruct (start_item a b c d e) as [c1| |] eqn:SI end;
+        cfgs Hstep; [|discriminate..]. injection Hstep as <- <-.
+      destruct (start_item_sound _ _ _ _ _ _ SI eq_refl) as (p' & Hp' & HP').
+      apply SInv_next with (done := done) (it := Gr fb (Some d)) (p' := p'); [exact Hwf| | | |exact Hp'|exact HP'].
+      * apply wf_gr; auto.
+      * rewrite render_item_Gr, Hfb2. txt.
+      * apply acc_ok_grn; auto.
+    + injection Hstep as <- <-. apply SInv_stay with (done := done) (p' := PGroupN body (d ++ [ch])); auto; [txt|].
+      cfgg. repeat split; auto.
+Qed.
+
+Lemma finish_sound acc c r :
+  SInv s acc c -> finish has_elem has_iso parse_rec s acc c = FOk r -> Final s r.
+Proof.
+  intros (done & p & Hs & Hwf & Hacc & HP) Hfin.
+  destruct c as [ces cee cis cie ccs cce cps cgs cge cgcs cgce cst].
+  unfold finish in Hfin.
+  assert (Hn : blen s = blen (render done ++ ptext p)) by (rewrite <- Hs; reflexivity).
+  rewrite Hn in Hfin. clear Hn.
+  change (id (s = render done ++ ptext p)) in Hs.
+  destruct p as [|sy|sy d|sy d|sy io d|body|body|body d];
+    cbn [PInv ptext es ee is_ ie cs ce pstack gs ge gcs gce fstate] in HP, Hs, Hfin.
+  - destruct HP as (Hst & Hiso). subst. discriminate.
+  - (* Element *)
+    destruct HP as (Hst & Hiso & Hes & Hsh). subst. cfgs Hfin.
+    unfold get_elem in Hfin. cfgs Hfin.
+    rewrite (sl_mid s (render done) sy []) in Hfin; [|rewrite app_nil_r; seq Hs|reflexivity|len]. cfgs Hfin.
+    destruct (has_elem sy) eqn:HE; cfgs Hfin; [|discriminate]. injection Hfin as <-.
+    apply Final_intro with (done := done) (it := El sy None None); [exact Hwf| | | ].
+    + apply wf_el; auto.
+    + rewrite render_item_El. cbn [iso_text opt_text]. rewrite ?app_nil_r. exact Hs.
+    + exact (acc_ok_el done acc sy None None Hacc).
+  - destruct HP as (Hst & _). subst. discriminate.
+  - (* IsotopeToCount *)
+    destruct HP as (Hst & Hes & Hee & His & Hie & Hsh). subst. cfgs Hfin.
+    unfold get_elem in Hfin. cfgs Hfin.
+    rewrite (sl_mid s (render done) sy ([LB] ++ d ++ [RB])) in Hfin; [|seq Hs|reflexivity|len].
+    cfgs Hfin. destruct (has_elem sy) eqn:HE; cfgs Hfin; [|discriminate].
+    unfold parse_isotope_slice in Hfin. cfgs Hfin.
+    rewrite (sl_mid s (render done ++ sy ++ [LB]) d [RB]) in Hfin; [|seq Hs|len|len].
+    cfgs Hfin. destruct (parse_u16 d) as [n|] eqn:PU; cfgs Hfin; [|discriminate].
+    unfold check_iso in Hfin. destruct ((n =? 0)%N || has_iso sy n) eqn:CI; cfgs Hfin; [|discriminate].
+    destruct (iso_ok_some sy d n None PU CI) as [Hi1 Hi2]. injection Hfin as <-.
+    apply Final_intro with (done := done) (it := El sy (Some d) None); [exact Hwf| | | ].
+    + apply wf_el; auto.
+    + rewrite render_item_El. seq Hs.
+    + rewrite <- Hi2. exact (acc_ok_el done acc sy (Some d) None Hacc).
+  - (* Count *)
+    destruct HP as (Hst & Hes & Hee & Hcs & Hsh & Hio). subst. cfgs Hfin.
+    unfold take_count in Hfin. cfgs Hfin.
+    rewrite (sl_mid s (render done ++ sy ++ iso_text io) d []) in Hfin; [|rewrite app_nil_r; seq Hs|len|len].
+    cfgs Hfin. destruct (parse_i32 d) as [cnt|] eqn:PC; cfgs Hfin; [|discriminate].
+    destruct (cnt_ok_some _ _ PC) as [Hc1 Hc2].
+    destruct io as [dd|].
+    + destruct Hio as [-> ->]. destruct dd as [|x dd].
+      * cbn [blen] in Hfin. rewrite Nat.add_0_r, Nat.eqb_refl in Hfin.
+        unfold get_elem in Hfin. cfgs Hfin.
+        rewrite (sl_mid s (render done) sy (iso_text (Some []) ++ d)) in Hfin; [|seq Hs|reflexivity|len].
+        cfgs Hfin. destruct (has_elem sy) eqn:HE; cfgs Hfin; [|discriminate].
+        unfold check_iso in Hfin. cbn [N.eqb orb] in Hfin. cfgs Hfin. injection Hfin as <-.
+        apply Final_intro with (done := done) (it := El sy (Some []) (Some d)); [exact Hwf| | | ].
+        -- apply wf_el; auto.
+        -- rewrite render_item_El. seq Hs.
+        -- rewrite <- Hc2. exact (acc_ok_el done acc sy (Some []) (Some d) Hacc).
+      * replace (Nat.eqb _ _) with false in Hfin
+          by (symmetry; apply Nat.eqb_neq; cbn [blen]; pose proof (width_pos x); lia).
+        unfold parse_isotope_slice in Hfin. cfgs Hfin.
+        rewrite (sl_mid s (render done ++ sy ++ [LB]) (x :: dd) ([RB] ++ d)) in Hfin; [|seq Hs|len|len].
+        cfgs Hfin. destruct (parse_u16 (x :: dd)) as [n|] eqn:PU; cfgs Hfin; [|discriminate].
+        unfold get_elem in Hfin. cfgs Hfin.
+        rewrite (sl_mid s (render done) sy (iso_text (Some (x :: dd)) ++ d)) in Hfin; [|seq Hs|reflexivity|len].
+        cfgs Hfin. destruct (has_elem sy) eqn:HE; cfgs Hfin; [|discriminate].
+        unfold check_iso in Hfin. destruct ((n =? 0)%N || has_iso sy n) eqn:CI; cfgs Hfin; [|discriminate].
+        destruct (iso_ok_some sy (x :: dd) n (Some d) PU CI) as [Hi1 Hi2]. injection Hfin as <-.
+        apply Final_intro with (done := done) (it := El sy (Some (x :: dd)) (Some d)); [exact Hwf| | | ].
+        -- apply wf_el; auto.
+        -- rewrite render_item_El. seq Hs.
+        -- rewrite <- Hc2, <- Hi2. exact (acc_ok_el done acc sy (Some (x :: dd)) (Some d) Hacc).
+    + subst cie. rewrite Nat.eqb_refl in Hfin. cfgs Hfin.
+      unfold get_elem in Hfin. cfgs Hfin.
+      rewrite (sl_mid s (render done) sy d) in Hfin; [|seq Hs|reflexivity|len].
+      cfgs Hfin. destruct (has_elem sy) eqn:HE; cfgs Hfin; [|discriminate].
+      unfold check_iso in Hfin. cbn [N.eqb orb] in Hfin. cfgs Hfin. injection Hfin as <-.
+      apply Final_intro with (done := done) (it := El sy None (Some d)); [exact Hwf| | | ].
+      * apply wf_el; auto.
+      * rewrite render_item_El. seq Hs.
+      * rewrite <- Hc2. exact (acc_ok_el done acc sy None (Some d) Hacc).
+  - destruct HP as (Hst & _). subst. discriminate.
+  - (* GroupToGroupCount *)
+    destruct HP as (Hst & Hiso & Hgs & Hge). subst. cfgs Hfin.
+    unfold take_group in Hfin. cfgs Hfin.
+    rewrite (sl_mid s (render done ++ [LP]) body [RP]) in Hfin; [|seq Hs|len|len].
+    cfgs Hfin. destruct (parse_rec body) as [g| |] eqn:PR; cfgs Hfin; [|discriminate..].
+    destruct (rec_sound body g PR) as (fb & Hfb1 & Hfb2 & Hfb3). injection Hfin as <-.
+    apply Final_intro with (done := done) (it := Gr fb None); [exact Hwf| | | ].
+    + apply wf_gr; auto.
+    + rewrite render_item_Gr, Hfb2. seq Hs.
+    + apply acc_ok_gr1; auto.
+  - (* GroupCount *)
+    destruct HP as (Hst & Hiso & Hgs & Hge & Hgcs). subst. cfgs Hfin.
+    unfold take_group in Hfin. cfgs Hfin.
+    rewrite (sl_mid s (render done ++ [LP]) body ([RP] ++ d)) in Hfin; [|seq Hs|len|len].
+    cfgs Hfin. destruct (parse_rec body) as [g| |] eqn:PR; cfgs Hfin; [|discriminate..].
+    destruct (rec_sound body g PR) as (fb & Hfb1 & Hfb2 & Hfb3).
+    unfold take_gcount in Hfin. cfgs Hfin.
+    rewrite (sl_mid s (render done ++ [LP] ++ body ++ [RP]) d []) in Hfin; [|rewrite app_nil_r; seq Hs|len|len].
+    cfgs Hfin. destruct (parse_i32 d) as [cnt|] eqn:PC; cfgs Hfin; [|discriminate].
+    destruct (cnt_ok_some _ _ PC) as [Hc1 Hc2]. injection Hfin as <-.
+    apply Final_intro with (done := done) (it := Gr fb (Some d)); [exact Hwf| | | ].
+    + apply wf_gr; auto.
+    + rewrite render_item_Gr, Hfb2. seq Hs.
+    + apply acc_ok_grn; auto.
+Qed.
+
+Lemma run_sound suf : forall pre acc c r, s = pre ++ suf -> SInv pre acc c ->
+  run uni_numeric has_elem has_iso parse_rec s acc c (indices suf (blen pre)) = FOk r -> Final s r.
+Proof.
+  induction suf as [|ch suf IH]; intros pre acc c r Es HI Hrun; cbn [indices run] in Hrun.
+  - rewrite app_nil_r in Es. subst pre. eapply finish_sound; eauto.
+  - destruct (step uni_numeric has_elem has_iso parse_rec s acc c (blen pre) ch) as [[acc' c']| |] eqn:St;
+      cbn [bind] in Hrun; [|discriminate..].
+    pose proof (step_sound pre ch suf acc c acc' c' Es HI St) as HI'.
+    replace (blen pre + width ch) with (blen (pre ++ [ch])) in Hrun by (rewrite blen_app; cbn [blen]; lia).
+    apply (IH (pre ++ [ch]) acc' c' r); auto. rewrite <- app_assoc. exact Es.
+Qed.
+End Run.
+
+Lemma SInv0 : SInv [] [] (cfg0).
+Proof.
+  exists [], PNew. split; [reflexivity|]. split; [reflexivity|]. split; [apply acc_ok_nil|].
+  cbn. auto.
+Qed.
+
+Theorem parse_sound : forall fuel s c, parse uni_numeric has_elem has_iso fuel s = FOk c -> Final s c.
+Proof.
+  induction fuel as [|f IH]; intros s c H; cbn [parse] in H; [discriminate|].
+  apply (run_sound s (parse uni_numeric has_elem has_iso f) (IH) s [] [] cfg0 c); auto.
+  apply SInv0.
+Qed.
+End Sound.
+
+Theorem parse_formula_sound : forall uni_numeric has_elem has_iso,
+  (forall s, has_elem s = true -> forallb (fun x => negb (x =? RP)%N) s = true) ->
+  forall s c, parse_formula uni_numeric has_elem has_iso s = FOk c ->
+  exists f, wf uni_numeric has_elem has_iso true f = true /\ render f = s /\ (forall k, e_get k c = denote f k).
+Proof.
+  intros un he hi Hrp s c H. unfold parse_formula in H.
+  destruct (parse_sound un he hi Hrp _ s c H) as (f & H1 & H2 & _ & H3).
+  exists f. auto.
+Qed.
+Print Assumptions parse_formula_no_panic.
+Print Assumptions parse_formula_sound.
